@@ -45,6 +45,38 @@ def readLoop (more : Bytes → Bool) (T : Nat) : Nat → Bytes → Stream → By
       else (inp, T, (g - (T - dur), b) :: rest)
     else (inp, dur, (g, b) :: rest)
 
+/-- the same `while` loop, literally, one iteration per unit of fuel, counting the `select` calls:
+    each iteration re-reads the clock (`duration = monotonic() - start`) whether or not a byte
+    came — after a `select` that timed out the clock stands at the deadline. Returns the loop's
+    result and the number of polls. (`readLoop` is this loop with the fuel discharged:
+    `read_terminates`.) -/
+def readIter (more : Bytes → Bool) (T : Nat) : Nat → Nat → Bytes → Stream → (Bytes × Nat × Stream) × Nat
+  | 0, dur, inp, s => ((inp, dur, s), 0)
+  | f + 1, dur, inp, s =>
+    if dur < T && more inp then
+      let st : Nat × Bytes × Stream := match s with
+        | [] => (T, inp, [])
+        | (g, b) :: r => if g ≤ T - dur then (dur + g, inp ++ [b], r) else (T, inp, (g - (T - dur), b) :: r)
+      let r := readIter more T f st.1 st.2.1 st.2.2
+      (r.1, r.2 + 1)
+    else ((inp, dur, s), 0)
+
+/-- `os.read(fd, n)` with `VMIN = n`: blocks until `n` bytes have arrived; `(bytes, ticks, rest)`,
+    `none` = fewer than `n` bytes ever arrive (the call blocks for good — documented for `min`) -/
+def takeBlocking : Nat → Stream → Option (Bytes × Nat × Stream)
+  | 0, s => some ([], 0, s)
+  | _ + 1, [] => none
+  | n + 1, (g, b) :: r => (takeBlocking n r).map fun x => (b :: x.1, g + x.2.1, x.2.2)
+
+/-- `read_tty(more, timeout, min, echo=…)` with `timeout ≥ 0`: if `min > 0` first the blocking
+    read of `min` bytes, then the timed loop with what is left of the timeout.  `echo` only
+    changes terminal attributes (C13), not what is read. -/
+def readTty (more : Bytes → Bool) (T min : Nat) (_echo : Bool) (s : Stream) : Option (Bytes × Nat × Stream) :=
+  if min == 0 then some (readLoop more T 0 [] s)
+  else match takeBlocking min s with
+    | none => none
+    | some x => some (readLoop more T x.2.1 x.1 x.2.2)
+
 /-- `read_tty()` (timeout `None`): `while select(0): input += read(100)` — everything that is
     readable now, without waiting. Returns `(input, unread)`. -/
 def readAvail : Stream → Bytes × Stream
